@@ -14,6 +14,7 @@ import (
 	"github.com/smart-core-os/sc-golang/pkg/trait/electricpb"
 	"github.com/smart-core-os/sc-golang/pkg/trait/enterleavesensorpb"
 	"github.com/smart-core-os/sc-golang/pkg/trait/metadatapb"
+	"github.com/smart-core-os/sc-golang/pkg/trait/openclosepb"
 	"github.com/smart-core-os/sc-golang/pkg/trait/parentpb"
 )
 
@@ -73,6 +74,7 @@ func models(r *vk.Run) {
 		{"metadatapb.Collection", metadataCollectionDriver},
 		{"enterleavesensorpb.Model", enterLeaveDriver},
 		{"electricpb.Model", electricDriver},
+		{"openclosepb.Model", openCloseDriver},
 	}
 	caseN := 0
 	for _, d := range drivers {
@@ -470,6 +472,89 @@ func electricDriver(g *modelRig, rng *vk.Rand, steps int) {
 				g.observe("result:ChangeToNormalMode", md)
 			}
 			g.verify("ChangeToNormalMode")
+		}
+	}
+}
+
+// openCloseDriver: the model-level methods of the open/close model that have no RPC of their own (GetPosition,
+// UpdatePosition, UpdatePositionN: positions written one direction at a time, possibly under a key that differs from
+// the direction they carry, or under a mask that leaves the direction out) next to the aggregate ones.
+func openCloseDriver(g *modelRig, rng *vk.Rand, steps int) {
+	m := openclosepb.NewModel(openclosepb.WithPreset(&traits.OpenClosePositions_Preset{Name: "closed", Title: "Closed"}, &traits.OpenClosePosition{OpenPercent: 0}))
+	ctx, cancel := context.WithCancel(context.Background())
+	defer cancel()
+	subs := 0
+	dirs := []traits.OpenClosePosition_Direction{traits.OpenClosePosition_DIRECTION_UNSPECIFIED, traits.OpenClosePosition_UP, traits.OpenClosePosition_DOWN}
+	for s := 0; s < steps && g.ok; s++ {
+		dir := dirs[rng.Intn(len(dirs))]
+		switch rng.Intn(8) {
+		case 0:
+			g.op(s, "GetPositions")
+			if rng.Bool() {
+				p, _ := m.GetPositions()
+				g.observe("result:GetPositions", p)
+			} else {
+				p, _ := m.GetPositions(resource.WithReadPaths(&traits.OpenClosePositions{}, "states"))
+				g.observe("result:GetPositions(mask)", p)
+			}
+			g.verify("GetPositions")
+		case 1, 2:
+			g.op(s, "GetPosition")
+			if p, err := m.GetPosition(dir); err == nil {
+				g.observe("result:GetPosition", p)
+			}
+			g.verify("GetPosition")
+		case 3:
+			g.op(s, "UpdatePosition")
+			in := &traits.OpenClosePosition{Direction: dir, OpenPercent: float32(rng.Intn(101))}
+			var opts []resource.WriteOption
+			if rng.Bool() {
+				opts = append(opts, resource.WithCreateIfAbsent())
+			}
+			if p, err := m.UpdatePosition(in, opts...); err == nil {
+				g.observe("result:UpdatePosition", p)
+			}
+			g.verify("UpdatePosition")
+			in.OpenPercent = 4242
+			g.verify("input-aliased/UpdatePosition")
+		case 4, 5:
+			g.op(s, "UpdatePositionN")
+			// the key and the direction carried by the message may differ, the direction may be left out, or a mask may
+			// write the percentage only
+			in := &traits.OpenClosePosition{OpenPercent: float32(rng.Intn(101))}
+			if rng.Bool() {
+				in.Direction = dirs[rng.Intn(len(dirs))]
+			}
+			opts := []resource.WriteOption{resource.WithCreateIfAbsent()}
+			if rng.Chance(1, 3) {
+				opts = append(opts, resource.WithUpdatePaths("open_percent"))
+			}
+			if p, err := m.UpdatePositionN(dir, in, opts...); err == nil {
+				g.observe("result:UpdatePositionN", p)
+			}
+			g.verify("UpdatePositionN")
+			in.OpenPercent = 4242
+			g.verify("input-aliased/UpdatePositionN")
+		case 6:
+			g.op(s, "UpdatePositions")
+			in := &traits.OpenClosePositions{States: []*traits.OpenClosePosition{{Direction: dir, OpenPercent: float32(rng.Intn(101))}}}
+			if p, err := m.UpdatePositions(in); err == nil {
+				g.observe("result:UpdatePositions", p)
+			}
+			g.verify("UpdatePositions")
+		default:
+			if subs >= 2 {
+				continue
+			}
+			subs++
+			g.op(s, "PullPositions")
+			ch := m.PullPositions(ctx, resource.WithBackpressure(rng.Bool()), resource.WithUpdatesOnly(rng.Chance(1, 3)))
+			go func() {
+				for c := range ch {
+					g.observe("event:PullPositions", c.Positions)
+				}
+			}()
+			g.verify("PullPositions")
 		}
 	}
 }
